@@ -29,6 +29,11 @@ def _load(t: ast.AST) -> ast.AST:
     return t
 
 
+class _Raised(Exception):
+    def __init__(self, node: ast.AST) -> None:
+        self.node = node
+
+
 class _Return(Exception):
     def __init__(self, value: Optional[Form]) -> None:
         self.value = value
@@ -218,10 +223,13 @@ class AbsRun:
 
     # ------------------------------------------------------------------ statements
     def run(self) -> Optional[Form]:
+        self.raised: Optional[ast.AST] = None
         try:
             self.block(body_without_docstring(self.f.node))
         except _Return as r:
             return r.value
+        except _Raised as r:
+            self.raised = r.node
         return None
 
     def block(self, stmts) -> None:
@@ -310,6 +318,8 @@ class AbsRun:
             cur = ast.Name(id=s.target.id, ctx=ast.Load())
             self.env[s.target.id] = self.ev.ev(ast.BinOp(left=cur, op=s.op, right=s.value))
             return
+        if isinstance(s, ast.Raise):
+            raise _Raised(s)
         if isinstance(s, ast.Return):
             raise _Return(self.ev.ev(s.value) if s.value is not None else None)
         if isinstance(s, ast.If):
